@@ -124,6 +124,48 @@ def run(ctx):
                 detail = "replayed %s is not guarded by both lookups (resolve_id Some=%s, keyspaces.get Some=%s): records of deleted/unknown keyspaces could be applied somewhere" % (leaf, res is not None, got is not None)
             ctx.ob("R-C12.2", fn, "replay-%s#%d-resolves-and-skips-unknown" % (leaf, i + 1), ok, detail, fn.loc(b))
     ctx.floor("R-C12.2", "replay apply sites", groups, 8)
+    # skipping a record of an unknown keyspace skips ONLY that record: the None edges continue the per-record loop
+    nskips = 0
+    for fid in ("db::Database::recover", "recovery::recover_sealed_memtables"):
+        fn = F.fns.get(fid)
+        if not fn:
+            continue
+        heads = [b for b, t in fn.calls() if A.cname(t).endswith("::next") and A.in_cycle(fn, b)]
+        lookups = [b for b, t in fn.calls() if A.cname(t) == RESOLVE or (A.cname(t).endswith("HashMap::<K, V, S, A>::get") and A.in_cycle(fn, b))]
+        for i, lb in enumerate(lookups):
+            # the switch on the Option produced by this lookup (after `?` for resolve_id)
+            none_t = None
+            for sb, blk in enumerate(fn.blocks):
+                t = blk["t"]
+                if t["k"] != "switch" or blk["cleanup"]:
+                    continue
+                term, labels = A.switch_info(fn, sb)
+                if term.k != "discr":
+                    continue
+                root = A.value_root(term.a)
+                if root.k == "call" and root.site == (fn.id, lb) and any("None" in ns for ns in labels.values()) :
+                    none_t = [tg for tg, ns in labels.items() if "None" in ns]
+                    if not any("Some" in ns for ns in labels.values()):
+                        none_t = [tg for tg, ns in labels.items() if "Some" not in ns]
+            if not none_t:
+                continue
+            # innermost loop head that the lookup belongs to: the head h with lb in cycle through h, minimal region
+            cands = [h for h in heads if A.dominates(fn, h, lb) and h in A.reach_after(fn, lb)]
+            inner = None
+            for h in cands:
+                if all(A.dominates(fn, o, h) for o in cands):
+                    inner = h
+            if inner is None:
+                continue
+            nskips += 1
+            r = A.reach(fn, none_t, avoid=[inner])
+            others = [h for h in heads if h != inner and h in r]
+            rets = [x for x in fn.return_blocks() if x in r]
+            ok = not others and not rets and (inner in A.reach(fn, none_t))
+            ctx.ob("R-C12.2", fn, "unknown-id-skips-only-that-record#%d" % (i + 1), ok,
+                   "a record whose keyspace no longer resolves is skipped and the loop continues with the next record" if ok
+                   else "the skip edge of %s leaves the per-record loop: the remaining records of the batch (belonging to OTHER keyspaces) are dropped too" % A.cname(fn.term(lb)).rsplit("::", 1)[-1], fn.loc(lb))
+    ctx.floor("R-C12.2", "skip edges of the replay lookups", nskips, 8)
 
     # ---- R-C12.3 own id, own tree
     for fn in R.write_entries(ctx):
